@@ -174,6 +174,46 @@ def gen_cases(tier, seed):
                          'exp': 1})
             terms = [{'pref': r.choice(['1', '-1', '1/2']), 'objs': objs}]
             mode, explicit = 'einstein', None
+        if r.random() < 0.05:
+            # squares (or pairs with equal partner index) that reduce to 1 with an
+            # explicit target on the partner index, times a bracket whose addends
+            # all carry that target: after the replacement the bracket is the only
+            # object left and the product is a sum of several terms
+            allp = pools[space]
+            nsq = r.choice([1, 1, 2])
+            xs = r.sample(allp, 2 * nsq)
+            first = r.random() < 0.5
+            objs, tgs = [], []
+            for q_ in range(nsq):
+                x, a = xs[2 * q_], xs[2 * q_ + 1]
+                tgs.append(a)
+                up = [x, a] if first else [a, x]
+                if r.random() < 0.6:
+                    o = {'t': kind, 'name': 'U', 'up': up, 'exp': 2}
+                    if kind == 'anti':
+                        o = {'t': 'anti', 'name': 'U', 'up': up[:1],
+                             'lo': up[1:], 'bk': 0, 'exp': 2}
+                    objs.append(o)
+                else:
+                    for _z in range(2):
+                        o = {'t': kind, 'name': 'U', 'up': up}
+                        if kind == 'anti':
+                            o = {'t': 'anti', 'name': 'U', 'up': up[:1],
+                                 'lo': up[1:], 'bk': 0}
+                        objs.append(o)
+            if nsq == 2:
+                objs.append({'t': 'non', 'name': 'x', 'up': [tgs[1]]})
+            ent = [[r.choice(['1', '2', '-1']), tgs[0], 'v'],
+                   [r.choice(['1', '3', '-2']), tgs[0], 'w']]
+            if r.random() < 0.4:
+                ent.append([r.choice(['1', '5']), tgs[0], 'z'])
+            br_ = {'t': 'br', 'e': ent, 'exp': 1}
+            if nsq == 2 and r.random() < 0.5:
+                objs.insert(0, br_)
+            else:
+                objs.append(br_)
+            terms = [{'pref': r.choice(['1', '-1', '1/2']), 'objs': objs}]
+            mode, explicit = 'explicit', list(tgs)
         if r.random() < 0.08:
             # closed ring  U_{x0 y0} U_{x1 y0} U_{x1 y1} U_{x2 y1} ... : every
             # index is contracted and occurs on U only; the value is the trace of
